@@ -400,9 +400,11 @@ def router_routes(ck):
 def main():
     ck = Check('C19')
     pool_factory(ck); trio_factory(ck); trio_pagination(ck); vault_factory(ck); incentive_factory(ck); pagination_more(ck); router_routes(ck)
+    import c14_router
+    c14_router.hop_execution(ck, ck.program('terraswap_router', 'white_whale_std'))          # executed hops go through the registered pair only
     ck.bounds.update(assets='universe of 3 native + 1 cw20 assets; quick: 4 ordered pairs, thorough: all 12', registry='pagination over 3 stored pairs with a symbolic page size',
                      symbolic='decimals, code ids, fees, page size; asset names and reply addresses concrete (byte-string key code)')
-    ck.outside += ['collisions of un-delimited concatenated byte keys', 'router executing hops only through registered pairs: obligation C19.router.exec.only_registered in the C14 check (router part)']
+    ck.outside += ['collisions of un-delimited concatenated byte keys', 'collisions of registry keys of different asset sets']
     return ck.finish()
 
 
